@@ -208,9 +208,33 @@ def _edep_ground_case(case, tier, seed):
     from periodictable import nsf, nsf_tables
     res = dict(paths=1, claims=0, discharged=0, queries=0, distinct=0, violations=[], inconclusive=[], samples=[], solver_s=0.0, complete=True)
     pt.H.neutron
-    for (el_name, iso), rows in nsf_tables.ENERGY_DEPENDENT_TABLES.items():
-        atom = getattr(pt, el_name) if iso is None else getattr(pt, el_name)[iso]
-
+    from periodictable import core, mass, density
+    import os
+    # independent snapshot of the embedded tables, taken before any further initialisation runs
+    snapshot = {k: [tuple(r) for r in rows] for k, rows in nsf_tables.ENERGY_DEPENDENT_TABLES.items()}
+    tables = [('public', pt.elements)]
+    for n in range(2):   # the second and third initialisation in this process
+        T = core.PeriodicTable('vsym-c07edep-%d-%d' % (os.getpid(), next(_CNT)))
+        try:
+            mass.init(T)
+            density.init(T)
+            nsf.init(T)
+        finally:
+            for k, v in list(core.PRIVATE_TABLES.items()):
+                if v is T:
+                    del core.PRIVATE_TABLES[k]
+        tables.append(('private%d' % (n + 1), T))
+    for tag, tab in tables:
+      for (el_name, iso), rows in snapshot.items():
+        atom = getattr(tab, el_name) if iso is None else getattr(tab, el_name)[iso]
+        res['claims'] += 1
+        wl = atom.neutron.nsf_table[0] if atom.neutron.nsf_table is not None else None
+        if wl is not None and all(a < b for a, b in zip(wl[:-1], wl[1:])):
+            res['discharged'] += 1
+        else:
+            res['violations'].append(dict(case=case.name, claim='wavelength_axis_increasing[%s-%s|%s]' % (el_name, iso, tag), values={},
+                                          observed=[repr(wl)[:80], 'strictly increasing'], how='concrete table'))
+            continue
         for en, re_, im_, _ in rows:
             lam = float(nsf.neutron_wavelength(en * 1000.))
             b, _s = atom.neutron.scattering_by_wavelength(lam)
@@ -218,7 +242,7 @@ def _edep_ground_case(case, tier, seed):
             if abs(complex(b) - complex(re_, im_)) <= 1e-9 * max(1.0, abs(complex(re_, im_))):
                 res['discharged'] += 1
             else:
-                res['violations'].append(dict(case=case.name, claim='node[%s-%s @ %g eV]' % (el_name, iso, en), values={'energy_eV': en},
+                res['violations'].append(dict(case=case.name, claim='node[%s-%s @ %g eV|%s]' % (el_name, iso, en, tag), values={'energy_eV': en},
                                               observed=[repr(complex(b)), repr(complex(re_, im_))], how='concrete node'))
     res['queries'] = res['distinct'] = res['claims']
     res['samples'] = [dict(tables=len(nsf_tables.ENERGY_DEPENDENT_TABLES), nodes=res['claims'])]
@@ -287,6 +311,13 @@ def _table_sweep_case(case, tier, seed):
                 res['discharged'] += 1
             else:
                 bad('%s.is_energy_dependent|%s' % (c[0], tag), n.is_energy_dependent, c[6])
+            # a row with a bound coherent length reports that an SLD is available whenever the density is known
+            res['claims'] += 1
+            dens_known = getattr(atom, 'density', None) is not None
+            if n.has_sld() == (n.b_c is not None and dens_known):
+                res['discharged'] += 1
+            else:
+                bad('%s.has_sld|%s' % (c[0], tag), n.has_sld(), (n.b_c, dens_known))
             bc = n.b_c_complex
             wre = None if c[0] == '63-Eu-151' else want['b_c']     # blank b_c: the complex value keeps a NaN real part
             ok = (wre is None or abs(bc.real - wre) <= 1e-12 * max(1, abs(wre))) and abs(bc.imag + want['absorption'] / (2000 * 1.798)) <= 1e-12 * max(1, want['absorption'])
@@ -335,6 +366,14 @@ def _table_sweep_case(case, tier, seed):
                         res['discharged'] += 1
                     else:
                         bad('no_row_no_sld[%s-%d]|%s' % (el.symbol, a, tag), 'has_sld', 'no sld')
+    # ... also a nuclide created after the data were loaded (private table only; add_isotope is public API)
+    for sym_, a in (('H', 9), ('Be', 15), ('Fe', 80), ('Eu', 170), ('U', 250)):
+        iso = getattr(T, sym_).add_isotope(a)
+        res['claims'] += 1
+        if not iso.neutron.has_sld() and iso.neutron.b_c is None:
+            res['discharged'] += 1
+        else:
+            bad('no_row_no_sld[%s-%d added after load]|private' % (sym_, a), iso.neutron.b_c, None)
     res['queries'] = res['distinct'] = res['claims']
     res['samples'] = [dict(facts_checked=res['claims'], note='ground sweep, exhaustive over the embedded rows; not a solver claim')]
     return res
